@@ -2,6 +2,7 @@
 from __future__ import annotations
 
 from kfv.core import Ctx
+from kfv.rules import coh_rules as C
 from kfv.rules import dist_rules as D
 
 NEEDS_TYPES = False
@@ -28,3 +29,4 @@ def run(ctx: Ctx) -> None:
     ctx.do(D.rule_sib_cb)
     ctx.do(D.rule_ts_flush)
     ctx.do(D.rule_dom_valid)
+    ctx.do(C.rule_cfg_fwd)
